@@ -253,7 +253,10 @@ pub fn gen_case(t: &mut Tape, c16: bool) -> HeadCase {
     let mut added: Vec<(String, Vec<u8>)> = vec![];
     for _ in 0..n_added {
         let suppressed_name = if c16 { t.chance(45) } else { t.chance(12) };
-        if suppressed_name {
+        if t.chance(if c16 { 6 } else { 3 }) {
+            // a transfer coding other than chunked is just a header the caller wants on the wire
+            added.push(("Transfer-Encoding".to_string(), t.pick(&["gzip", "deflate", "x-custom"]).as_bytes().to_vec()));
+        } else if suppressed_name {
             let k = *t.pick(&["cookie", "authorization", "Cookie", "AUTHORIZATION", "connection"]);
             let v = gen_special_value(t, &k.to_ascii_lowercase());
             added.push((k.to_string(), v));
@@ -418,22 +421,24 @@ pub fn check_head(c: &HeadCase, eff: &Effective, head: &[u8]) -> Result<ReqHead,
         fields.remove(hosts[0]);
     }
 
-    // framing
+    // framing: Content-Length, or a Transfer-Encoding field whose value is "chunked"; any other Transfer-Encoding value
+    // (gzip, ...) is an ordinary header as far as this client is concerned
+    let is_te_chunked = |f: &(String, Vec<u8>)| f.0.eq_ignore_ascii_case("transfer-encoding") && f.1.eq_ignore_ascii_case(b"chunked");
     let caller_cl = c.added.iter().chain(eff.inherited.iter()).filter(|(k, _)| k.eq_ignore_ascii_case("content-length")).count();
-    let caller_te = c.added.iter().chain(eff.inherited.iter()).filter(|(k, _)| k.eq_ignore_ascii_case("transfer-encoding")).count();
+    let caller_te = c.added.iter().chain(eff.inherited.iter()).filter(|f| is_te_chunked(f)).count();
     let n_cl = fields.iter().filter(|(k, _)| k.eq_ignore_ascii_case("content-length")).count();
-    let tes: Vec<usize> = fields.iter().enumerate().filter(|(_, (k, _))| k.eq_ignore_ascii_case("transfer-encoding")).map(|(i, _)| i).collect();
+    let tes: Vec<usize> = fields.iter().enumerate().filter(|(_, f)| is_te_chunked(f)).map(|(i, _)| i).collect();
     if !eff.body_follows {
         if n_cl != 0 || !tes.is_empty() {
-            return Err(format!("no body follows but the head carries framing fields (content-length x{}, transfer-encoding x{})", n_cl, tes.len()));
+            return Err(format!("no body follows but the head carries framing fields (content-length x{}, transfer-encoding: chunked x{})", n_cl, tes.len()));
         }
     } else if caller_cl == 0 && caller_te == 0 {
-        if n_cl != 0 || tes.len() != 1 || !fields[tes[0]].1.eq_ignore_ascii_case(b"chunked") {
-            return Err(format!("a body follows without caller framing: expected exactly one 'transfer-encoding: chunked' (content-length x{}, transfer-encoding x{})", n_cl, tes.len()));
+        if n_cl != 0 || tes.len() != 1 {
+            return Err(format!("a body follows without caller framing: expected exactly one 'transfer-encoding: chunked' (content-length x{}, transfer-encoding: chunked x{})", n_cl, tes.len()));
         }
         fields.remove(tes[0]);
     } else if n_cl != caller_cl || tes.len() != caller_te {
-        return Err(format!("framing fields differ from what the caller supplied (content-length x{} vs {}, transfer-encoding x{} vs {})", n_cl, caller_cl, tes.len(), caller_te));
+        return Err(format!("framing fields differ from what the caller supplied (content-length x{} vs {}, transfer-encoding: chunked x{} vs {})", n_cl, caller_cl, tes.len(), caller_te));
     }
 
     // caller-added first, in order
@@ -479,7 +484,7 @@ pub fn check_head(c: &HeadCase, eff: &Effective, head: &[u8]) -> Result<ReqHead,
 
 /// After the head: the body (if any) must use exactly the framing the head announced.
 pub fn check_body_matches(c: &HeadCase, eff: &Effective, u: Under, head: &ReqHead) -> Result<(), String> {
-    let announced_te = !head.values("transfer-encoding").is_empty();
+    let announced_te = head.values("transfer-encoding").iter().any(|v| v.eq_ignore_ascii_case(b"chunked"));
     let announced_cl: Option<usize> = head.values("content-length").first().map(|v| String::from_utf8_lossy(v).parse().unwrap_or(0));
     match u {
         Under::Flow(f) => match after_head(f)? {
